@@ -147,6 +147,42 @@ def relational_ops(rep, seed):
             rep.violation("reverse sweep raises %s" % type(ex).__name__, {"what": repr(ex)[-300:]})
 
 
+def reverse_truncation(rep, seed, rounds):
+    """reverse mode over the whole differentiable API: adjoint coefficients of order < D' computed at degree D equal those
+    computed from inputs and seed truncated to D' (programs shared with C03)"""
+    import tracer_replay as T
+    algopy = load_algopy()
+    from algopy import UTPM
+    rng = numpy.random.RandomState((seed + 5) % 2 ** 31)
+    for rnd_ in range(rounds):
+        for name, f in T.adjoint_programs(algopy):
+            if name == "eig_values":
+                continue            # documented: first-order polynomials only
+            D = 3 + (rnd_ % 2); P = 1 + ((rnd_ // 2) % 2)
+            x = rng.uniform(0.3, 1.3, size=(D, P, 4)); x[1:] *= 0.7
+            rep.case(("reverse truncation", name, rnd_), nontrivial=True); rep.replayed(1)
+            try:
+                cg = algopy.CGraph()
+                fx = algopy.Function(UTPM(x.copy()))
+                fy = f(fx)
+                cg.trace_off(); cg.independentFunctionList = [fx]; cg.dependentFunctionList = [fy]
+                ybar = rng.uniform(-1, 1, size=fy.x.data.shape)
+                cg.pullback([UTPM(ybar.copy())])
+                full = fx.xbar.data.copy()
+                for Dp in range(1, D):
+                    cg.pushforward([UTPM(x[:Dp].copy())]); cg.pullback([UTPM(ybar[:Dp].copy())])
+                    part = fx.xbar.data
+                    if part.shape != full[:Dp].shape or not numpy.allclose(part, full[:Dp], rtol=1e-8, atol=1e-10):
+                        rep.violation("reverse sweep [%s]: adjoint coefficients < %d computed at D=%d differ from those computed at D=%d" % (name, Dp, D, Dp),
+                                      {"D": D, "Dp": Dp, "P": P, "err": float(abs(part - full[:Dp]).max()) if part.shape == full[:Dp].shape else "shape"})
+                        break
+            except NotImplementedError:
+                pass                # documented restriction (explicit exception), reported by C03
+            except Exception as ex:
+                if "NotImplementedError" not in repr(ex):
+                    rep.violation("reverse sweep [%s] raises %s" % (name, type(ex).__name__), {"what": repr(ex)[-300:]})
+
+
 def run(rep, tier, seed):
     q = tier == "quick"
     lim = 1500 if q else 20000
@@ -161,6 +197,7 @@ def run(rep, tier, seed):
     U.machine_check(rep, [dict(name="cmp_bcast_D3", D=3, P=2, pool="PoolBcast", acts="ActsCmp", maxlen=2, cmps="CmpSet")], "C12")
     functions_truncated(rep, tier, seed)
     relational_ops(rep, seed)
+    reverse_truncation(rep, seed, 2 if q else 8)
     return rep.finish("cases: every TLC-generated behaviour at D re-run at every D' < D; every function x coefficient pattern at every D' <= D "
                       "against the leading block of the C-matrix; 28 operations, factorizations and reverse sweeps at D vs D' < D; "
                       "non-trivial = D' >= 1 with at least one action")
